@@ -997,13 +997,14 @@ func (env *SpecEnv) callExpr(x ECall) Val {
 		// the allocation counter: every object allocated from now on has a
 		// reference >= nextref()
 		return intVal(env.st.nextRef)
-	case "wgtok", "wgst", "mayclose":
+	case "wgtok", "wgst", "mayclose", "chcredit":
 		// thread-local ghost permissions of the current goroutine:
 		// wgtok(wgptr): outstanding WaitGroup.Add units it owns (it still has to
 		// call Done for them); wgst(wgptr): 0 nothing, 1 it created the WaitGroup
 		// and may still Add, 2 it may Wait (no Add can follow), 3 it has returned
 		// from Wait; mayclose(ch): 1 if it holds the unique, unused permission to
-		// close channel ch
+		// close channel ch; chcredit(ch): free buffer slots of channel ch reserved
+		// for this goroutine (a send that uses one cannot block)
 		v := env.eval(x.Args[0])
 		return intVal(sel(e.tlHeap(env.st, "G$"+x.Fn), v.T))
 	case "held":
